@@ -28,6 +28,9 @@ def limits(rnd, kind):
             L[nm]["rb"] = rnd.randint(6000, 20000)
     if kind in ("idle", "recv-ignore-flood"):
         L["s"]["rp"], L["s"]["rb"] = 5000, 10 ** 7      # only the client's own counters can ask
+    if kind == "recv-ignore-flood":
+        L["c"]["rb"] = 10 ** 7                          # ... its packet counter
+        L["c"]["op"], L["c"]["ob"] = rnd.randint(15, 25), 10 ** 7   # with a real allowance: a stalled exchange would end the session
     return L
 
 
@@ -68,15 +71,26 @@ def run_session(rnd, kind):
             if rnd.random() < 0.7:
                 S.settle(deadline=6, quiet=0.06, mark=True)
     elif kind == "recv-ignore-flood":
-        # the client receives nothing but MSG_IGNORE packets (keep-alive chaff), gapless: its run loop dispatches them with
-        # `continue` - the limit must be noticed all the same
-        for _ in range(rnd.randint(2, 3)):
-            for _ in range(L["c"]["rp"] + rnd.randint(5, 30)):
-                try:
-                    S.ts.send_ignore(rnd.randint(1, 64))
-                except Exception:
-                    break
-            S.settle(deadline=6, quiet=0.06, mark=True)
+        # the client receives nothing but MSG_IGNORE packets (keep-alive chaff) without a gap, well past its limit plus its
+        # (finite) allowance: its run loop dispatches them with `continue` - the limit must be noticed all the same, the
+        # exchange started, and the cooperative peer must not be dropped.  The flood is paced by acknowledgement (next packet
+        # only once the client has consumed the last one and the server has read everything the client wrote), so the
+        # number of packets in flight when the client's KEXINIT goes out is at most 1-2, whatever the machine load.
+        def count(side, act):
+            return sum(1 for x in S.log if x[0] == side and x[1] == act)
+        total = 2 * L["c"]["rp"] + L["c"]["op"] + 40
+        for k in range(total):
+            if not (S.tc.is_active() and S.ts.is_active()):
+                break
+            n_before = count("c", "Recv")
+            try:
+                S.ts.send_ignore(rnd.randint(1, 64))       # blocks while a key exchange is running on the server
+            except Exception:
+                break
+            end = time.time() + 10.0
+            while time.time() < end and S.tc.is_active() and (count("c", "Recv") <= n_before or count("s", "Recv") < count("c", "Send")):
+                time.sleep(0.0005)
+        S.settle(deadline=6, quiet=0.06, mark=True)
     elif kind == "interleaved":
         def side(nm, r):
             for _ in range(r.randint(2, 4)):
